@@ -136,6 +136,9 @@ def gen_multi(rng, opts):
         if rng.random() < 0.4:
             lhs = ["+", lhs, ["*", C(dyadic_nz(rng)), cterm(rng, mc, tcases)]]
         mc["coupling"].append({"rel": rng.choice(["eq", "le"]), "lhs": lhs, "rhs": rhs})
+        # a coupling constraint may also be DECLARED ON one of the sub-stages (st2.subject_to(st2.at_t0(x) == st1.at_tf(x))):
+        # the same row as when it is declared on the master
+        mc["coupling"][-1]["host"] = rng.randrange(k) if rng.random() < 0.4 else None
     for _ in range(rng.choice([0, 1, 2])):
         t = cterm(rng, mc, tcases)
         if rng.random() < 0.4:
@@ -346,7 +349,8 @@ def build_multi(mc, rockit):
         raise ValueError(e)
     for c in mc["coupling"]:
         L, R = cex(c["lhs"]), cex(c["rhs"])
-        master.subject_to((L == R) if c["rel"] == "eq" else (L <= R))
+        host = master if c.get("host") is None else Bs[c["host"]].ocp
+        host.subject_to((L == R) if c["rel"] == "eq" else (L <= R))
     for t in mc["mobj"]:
         master.add_objective(cex(t))
     master.solver("ipopt", {"ipopt.print_level": 0, "print_time": False, "ipopt.sb": "yes"})
